@@ -94,7 +94,19 @@ var c07Letters = func() []c07Letter {
 		c07Letter{"probe", func(g *generate.Generator, set int) error {
 			g.StartPath(0, -12, -12)
 			g.AbsLineTo(12, -12)
+			// reading the selectors is not a styling operation: allowed inside an open path
+			g.CSel()
+			g.NSel()
 			g.RelLineTo(c07v(set, -12, -11.9), 24)
+			g.ClosePathEndPath()
+			return nil
+		}},
+		// arcs whose two flags differ, relative and absolute
+		c07Letter{"arcs", func(g *generate.Generator, set int) error {
+			g.StartPath(1, -9, 0)
+			g.RelArcTo(6, 4, 0.125, true, false, 10, c07v(set, 2, 2.2))
+			g.AbsArcTo(5, 5, 0, false, true, 8, -6)
+			g.RelArcTo(3, 7, 0.75, false, true, -4, -3)
 			g.ClosePathEndPath()
 			return nil
 		}},
@@ -147,7 +159,7 @@ func init() {
 	mc.Register(&mc.Check{
 		ID:    "C07",
 		Level: "model_checking",
-		Rule: fmt.Sprintf("engine S: every history of <=5 (thorough <=6) letters over a %d-letter alphabet (SetCSel/SetNSel at {0,9,10,62,63} and at arguments >= 64 (74, 201), incrementing and non-incrementing register writes, CSel()/NSel() read-backs, Generator helpers SetGradient (2 and 3 stops), SetLinearGradient, SetCircularGradient, SetEllipticalGradient, SetPathData, a probe path, a path with runs of 20 and 35 lines and 18 curves), run in lock step through Generator->Renderer and Generator->Encoder->Decode->Renderer (histories <=3 also through DestinationLogger), two argument sets (dyadic, non-dyadic). ", nl) +
+		Rule: fmt.Sprintf("engine S: every history of <=5 (thorough <=6) letters over a %d-letter alphabet (SetCSel/SetNSel at {0,9,10,62,63} and at arguments >= 64 (74, 201), incrementing and non-incrementing register writes, CSel()/NSel() read-backs, Generator helpers SetGradient (2 and 3 stops), SetLinearGradient, SetCircularGradient, SetEllipticalGradient, SetPathData, a probe path with selector read-backs inside it, an arc path with unequal flags, a path with runs of 20 and 35 lines and 18 curves), run in lock step through Generator->Renderer and Generator->Encoder->Decode->Renderer (histories <=3 also through DestinationLogger), two argument sets (dyadic, non-dyadic). ", nl) +
 			"After every call the Encoder's and the Renderer's CSel()/NSel() must agree modulo 64 with each other and with the specification VM; helper return values must agree; at the end both recording rasterisers must hold the same calls and paints (bit-equal for the dyadic set, within the C01 tolerance otherwise). " +
 			"states = histories executed, transitions = letters executed; non-trivial = history containing a gradient helper or an incrementing write followed by a read-back",
 		Assumptions: []string{"non-dyadic argument set: rasteriser coordinates compared within 2^-17 relative to the raster size, gradient matrices within 2^-19 relative"},
